@@ -1,2 +1,3 @@
 import Props.C12
 import Props.C09
+import Props.C11
